@@ -183,7 +183,7 @@ PROPS = {
                        "of at most 255 octets and the valid non-empty relative names of at most 254 (this contract exposed D50).",
         "not_covered": "Presentation-text round trip (Display/FromStr: core::fmt and char iterators), append_name/append_origin/"
                        "append_symbols (label iterators), Chain beyond its length check, UncertainName, slice/range with general RangeBounds and Name::{truncate, strip_suffix} (searched natively only), "
-                       "zonefile::inplace name conversion. Builders that refuse to grow (ShortBuf) are outside the contracts (D13).",
+                       "the text parsers of Name / RelativeName (FromStr, from_chars). The zone-file reader's name conversion is under contract in unit zfsource (C07: scan_name hands out valid names only). Builders that refuse to grow (ShortBuf) are outside the contracts (D13).",
         "assumptions": [
             "OctetsBuilder + AsRef<[u8]> + AsMut<[u8]> are modelled by one prelude trait (append_slice appends or fails unchanged; as_mut keeps the length)",
         ],
@@ -759,9 +759,13 @@ PROPS = {
                        "in-place conversion of one label of a name, both its fast path and its escape-decoding path): what is written never overtakes "
                        "what is still to be read, the length octet written in front of the label says how many octets follow and never more than 63 "
                        "(a longer label is refused on both paths), and when there is nothing to convert the write position is where it was; "
-                       "EntryScanner::convert_charstr likewise with the 255-octet limit of a character string.",
+                       "EntryScanner::convert_charstr likewise with the 255-octet limit of a character string. EntryScanner::scan_name (the zone-file "
+                       "reader's name scanner, real text): the octets it hands to the unchecked constructor of RelativeName are a correctly encoded "
+                       "relative name at both call sites (labels of 1..=63 octets: an empty label inside a name is refused -- D32 --, the invariant is "
+                       "carried through convert_label's contract), its expect() cannot fail, and a name it returns is that relative part chained to "
+                       "the origin or the root with at most 255 octets together -- a valid absolute name (C03).",
         "not_covered": "Layout independence beyond the metamorphic search c07_search_layouts (a relation between two runs on two files; no contract on a single call expresses it), "
-                       "the rest of EntryScanner (scan_entry, scan_name, convert_token, in-place rewriting with from_utf8_unchecked), record-data "
+                       "the rest of EntryScanner (scan_entry, convert_token, convert_entry, in-place rewriting with from_utf8_unchecked), record-data "
                        "scan() functions, $ORIGIN/$TTL/class inheritance, error positions. Symbol::from_slice_index is assumed to "
                        "return an end position inside the buffer (its own totality is not proved).",
         "assumptions": [
